@@ -525,6 +525,19 @@ func runC13(c *mon.Ctx) {
 					w.headers = append(w.headers, [2]string{"Authorization", x.String()})
 					return true
 				},
+				// an unquoted parameter value is a token (older servers also leave the colon of a port unquoted): blanks, an
+				// empty value or non-ASCII make the header malformed, also on a parameter nobody reads
+				"header-unquoted-value-not-a-token": func(w *wireReq) bool {
+					switch tr.Intn(3) {
+					case 0:
+						w.setHeader("Authorization", xm.String()+gen.Pick(tr, []string{",x=a b c", ",x=a\tb", ",x=", ",x=é", ",x=a;b"}))
+					case 1:
+						w.setHeader("Authorization", fmt.Sprintf("X-Matrix origin=\"%s\",key=\"%s\",sig=\"%s\",destination=", xm.origin, xm.key, xm.sig))
+					default:
+						w.setHeader("Authorization", fmt.Sprintf("X-Matrix origin=\"%s\",key=\"%s\",sig=\"%s\",destination= ,x=1", xm.origin, xm.key, xm.sig))
+					}
+					return true
+				},
 				"header-conflicting-origins": func(w *wireReq) bool {
 					x := xm
 					x.origin = other
